@@ -48,7 +48,8 @@ def seeded_summary():
     waves = collections.OrderedDict([("wave 1 (`sub-m*`, reverses of fixes)", lambda n: "-sub-" in n or "reverted" in n),
                                      ("wave 2 (`sub2-n*`)", lambda n: "-sub2-" in n), ("wave 3 (`sub3-p*`)", lambda n: "-sub3-" in n),
                                      ("wave 4 (`sub4-p*`: away from the centre, cooperating sites)", lambda n: "-sub4-" in n),
-                                     ("wave 5 (`sub5-p*`: shared infrastructure, caches, narrowing, second type parameter)", lambda n: "-sub5-" in n)])
+                                     ("wave 5 (`sub5-p*`: shared infrastructure, caches, narrowing, second type parameter)", lambda n: "-sub5-" in n),
+                                    ("wave 6 (`sub6-p*`: rarely-taken branches, helpers, parameter validation, iterator adaptors)", lambda n: "-sub6-" in n)])
     out = ["| wave | changes | caught by the quick generator alone | … only with the escalated budget | … only by the thorough tier | of those: with a concrete failing input | `no-failing-input-found` | missed | does not apply |",
            "|---|---|---|---|---|---|---|---|---|"]
     for name, pred in waves.items():
